@@ -658,11 +658,10 @@ impl File {
         self.stamp = Some(newstamp);
     }
 
-    /// Forgets the file's stamp: its state is unknown until a build records it again.
-    ///
-    /// A generated file without a stamp is rebuilt by the next run that needs it.
-    pub fn clear_stamp(&mut self) {
-        self.stamp = None;
+    /// Marks the file as being built in this run: until the build is recorded, a build that
+    /// was started and never finished is a failed build.
+    pub fn set_started(&mut self, v: &Env) {
+        self.failed_runid = v.runid;
     }
 
     pub(crate) fn update_stamp(&mut self, v: &Env, must_exist: bool) -> Result<(), RedoError> {
